@@ -14,7 +14,7 @@ MANIFEST_ENTRY = {
             "saturated; the tree checker decides the derivation relation; every run of the nondeterministic LR "
             "automaton over a wf table (which is what each GSS path of the GLR driver is) yields only derivation "
             "trees. An executable Lean model of the GLR driver itself (Model/GLR.lean: GSS, path search, limited "
-            "re-reductions, revisits, shifts) is run on every input without lexical ambiguity between heads and must "
+            "re-reductions, revisits, shifts) is run on every input (lexical ambiguity included; inputs whose revisit sets have an order the model does not determine are flagged and left to the oracles) and must "
             "give the implementation's acceptance and exact set of packed alternatives. Per case the "
             "implementation's accept/reject is also compared with the verified oracle, every tree "
             "taken from the forest (all up to a cap, sampled beyond) is checked by the verified checker, and only "
